@@ -7,7 +7,7 @@
    prs (fmt x) = Some x, no TAB/LF in fmt x, fmt x <> '.' (part of [gff_wf]). *)
 From Coq Require Import List NArith Lia.
 From NV Require Import Base.Percent Base.PercentProofs Text.TextBase Text.TextBaseProofs
-  Text.Gff Text.GffProofs Text.Gtf Text.GtfProofs Text.Bed Text.BedProofs Text.BedRec Text.BedRecProofs Text.GffLine Text.GffLineProofs Text.TightProofs.
+  Text.Gff Text.GffProofs Text.Gtf Text.GtfProofs Text.Bed Text.BedProofs Text.BedRec Text.BedRecProofs Text.BedTyped Text.BedTypedProofs Text.GffLine Text.GffLineProofs Text.GtfLine Text.GtfLineProofs Text.TightProofs.
 Import ListNotations.
 Open Scope N_scope.
 
@@ -135,6 +135,37 @@ Proof.
   - repeat constructor; cbn; try tauto; intros [E|[]]; discriminate.
 Qed.
 
+(* GTF lines: read_line (no blank-line skipping), Line::kind, line_bufs() *)
+Theorem c18_gtf_comment_roundtrip : forall prs s,
+  ~ In 10 s -> strip_cr s = s ->
+  whole_line (gtf_write_comment s)
+  /\ gtf_classify prs (gtf_write_comment s) = TComment s
+  /\ gtf_line_buf prs (gtf_write_comment s) = TBComment s.
+Proof. exact gtf_comment_roundtrip. Qed.
+Print Assumptions c18_gtf_comment_roundtrip.
+
+Theorem c18_gtf_record_line_classified : forall fmt prs r line,
+  gtf_wf fmt prs r -> gtf_write fmt r = Ok line ->
+  whole_line line
+  /\ gtf_classify prs line = TRecord (GRec (gtf_expected r))
+  /\ gtf_line_buf prs line = TBRecord (gtf_owned (gtf_expected r)).
+Proof. exact gtf_record_line_classified. Qed.
+Print Assumptions c18_gtf_record_line_classified.
+
+(* a whole written GTF file (records and comments in any order) followed by any text *)
+Theorem c18_gtf_file_roundtrip : forall fmt prs items ls tail,
+  Forall2 (fun it l => gtitem_ok fmt prs it /\ gtitem_line fmt it = Ok l) items ls ->
+  gtf_file_line_bufs prs (lines_text ls ++ tail) = map gtitem_buf items ++ gtf_file_line_bufs prs tail.
+Proof. exact gtf_file_roundtrip. Qed.
+Print Assumptions c18_gtf_file_roundtrip.
+
+(* unlike GFF3, a blank line in a GTF file is not skipped: it is a record line that fails *)
+Theorem c18_gtf_blank_line_is_an_error : forall prs,
+  gtf_file_lines prs [10] = [TRecord (GLineErr UnexpectedEof)]
+  /\ gtf_file_line_bufs prs [10] = [TBRecord (Err InvalidData)].
+Proof. exact gtf_blank_line_is_an_error. Qed.
+Print Assumptions c18_gtf_blank_line_is_an_error.
+
 (* ---- BED ---- *)
 (* Record level, for BED3..BED6 + any number of extra columns (the N the API has: Record<3..6>,
    so BED7..BED12 are N=6 plus other fields).  Model of read_record_N into the caller's record
@@ -204,6 +235,18 @@ Proof.
     try (match goal with H : Some _ = Some _ |- _ => injection H as H; subst; lia end).
 Qed.
 
+(* typed extra columns (Int64 / UInt64 / Float64 / Character / String): written as their text,
+   read back -- the reader has no types -- as the String of that text, in order.  [fmt64] stands
+   for f64 Display; the only premise on it: its text is printable ASCII for the floats present *)
+Theorem c18_bed_typed_roundtrip : forall fmt64 r vs line rest old,
+  bed_wf r -> float_texts_ok fmt64 vs -> bed_write_typed fmt64 r vs = Ok line ->
+  length (bf_std old) = b_n r ->
+  let o := bed_read_record (b_n r) (line ++ 10 :: rest) old in
+  ro_res o = Ok (length line + 1)%nat /\ ro_src o = rest
+  /\ bed_view_of (b_n r) (ro_rec o) = bed_expected_view (bed_with_others r (map (bed_value_text fmt64) vs)).
+Proof. exact bed_typed_roundtrip. Qed.
+Print Assumptions c18_bed_typed_roundtrip.
+
 (* the column-level core used by the theorem above *)
 Theorem c18_bed_columns_split : forall r line, bed_write r = Ok line ->
   split_all 9 (first_line (line ++ [10])) = bed_std_columns r ++ b_others r.
@@ -250,13 +293,19 @@ Theorem c18_gff_comment_roundtrip : forall prs s rest,
 Proof. exact gff_comment_roundtrip. Qed.
 Print Assumptions c18_gff_comment_roundtrip.
 
-(* known class gff3-comment-linebuf-keeps-hash: the OWNED comment of line_bufs() is '#' + the
-   comment, and writing that back gives a directive line *)
-Theorem c18_gff_comment_linebuf_refuted : forall prs s, hd 0 s <> 35 ->
-  gff_line_buf prs (gff_write_comment s) = BComment (35 :: s) /\
-  gff_write_comment (35 :: s) = 35 :: 35 :: s.
-Proof. exact gff_comment_linebuf_refuted. Qed.
-Print Assumptions c18_gff_comment_linebuf_refuted.
+(* the OWNED comment of line_bufs() is the comment that was written (former known class
+   gff3-comment-linebuf-keeps-hash, repaired in /repo 0b526eb: it used to be '#' + the comment,
+   which written back gave a directive line) *)
+Theorem c18_gff_comment_linebuf_roundtrip : forall prs s, hd 0 s <> 35 ->
+  gff_line_buf prs (gff_write_comment s) = BComment s.
+Proof. exact gff_comment_linebuf_roundtrip. Qed.
+Print Assumptions c18_gff_comment_linebuf_roundtrip.
+
+(* the former refutation witness: "#comment" now comes back as "comment", not "#comment" *)
+Example comment_linebuf_demo :
+  gff_file_line_bufs (fun _ => None) [35; 99; 111; 109; 109; 101; 110; 116; 10]
+  = [BComment [99; 111; 109; 109; 101; 110; 116]].
+Proof. vm_compute. reflexivity. Qed.
 
 (* a record line the writer accepts is never taken for a directive, a comment or a blank line:
    '#' (and '>') in a sequence id are percent-encoded, an empty id leaves a leading TAB *)
@@ -278,6 +327,25 @@ Theorem c18_gff_read_lines_fuel : forall s f1 f2, (length s < f1)%nat -> (length
   gff_read_lines f1 s = gff_read_lines f2 s.
 Proof. exact gff_read_lines_fuel. Qed.
 Print Assumptions c18_gff_read_lines_fuel.
+
+(* a whole written GFF3 file -- records, directives, comments in any order -- followed by ANY
+   text: line_bufs() yields the items in order (records as the lazy reader sees them, i.e. with
+   the sequence id still encoded: c18_gff_record_readback), then whatever the rest yields *)
+Theorem c18_gff_file_roundtrip : forall fmt prs items ls tail,
+  Forall2 (fun it l => item_ok fmt prs it /\ item_line fmt it = Ok l) items ls ->
+  gff_file_line_bufs prs (lines_text ls ++ tail) = map item_buf items ++ gff_file_line_bufs prs tail.
+Proof. exact gff_file_roundtrip. Qed.
+Print Assumptions c18_gff_file_roundtrip.
+
+(* record_bufs() returns exactly the records before the ##FASTA directive, whatever follows it
+   (there is no FASTA section reader: the iterator just stops there) *)
+Theorem c18_gff_record_bufs_stop_at_fasta : forall fmt prs items ls tail,
+  Forall2 (fun it l => item_ok fmt prs it /\ item_line fmt it = Ok l) items ls ->
+  Forall (fun it => not_fasta (item_buf it)) items ->
+  gff_record_bufs (gff_file_line_bufs prs (lines_text ls ++ fasta_line ++ 10 :: tail))
+  = buf_records (map item_buf items).
+Proof. exact gff_record_bufs_stop_at_fasta. Qed.
+Print Assumptions c18_gff_record_bufs_stop_at_fasta.
 
 Example directive_demo_ok :
   directive_ok {| d_key := key_sequence_region; d_value := Some (DRegion [99; 116; 103] 1 1497228) |}.
